@@ -625,58 +625,157 @@ def arm_interleave(res, rng, bts):
     res.see('interleave-ok')
 
 
+HISTORY_ZONES = {'absent-optional-emptyable-record', 'default-constructed', 'default-choice'}
+
+
+def build_menu(rng, bt):
+    """Calls on the shared objects of bt, each with what it returns when run alone on these very objects:
+    [(label, callable, expected)]; None when the basic pair cannot be built."""
+    menu = []
+    try:
+        e_der = R.der(bt.T, bt.v)
+        want_enc = der_encoder.encode(bt.obj)
+    except Exception:
+        return None
+
+    def dec_with(dec, data, bt=bt):
+        d, rest = dec.decode(data, asn1Spec=bt.schema)
+        return (bytes(rest), U.canon(bt.T, B.absval(d, bt.T)))
+    menu.append(('encode', (lambda bt=bt: der_encoder.encode(bt.obj)), want_enc))
+    menu.append(('decode', (lambda e=e_der, f=dec_with: f(der_decoder, e)), (b'', bt.cv)))
+    # other values of the same type decoded against the SAME schema object (a module-level schema shared by all
+    # threads of a program): different alternatives / optional members / element counts in flight at once
+    o = C.opts_for('quick', rng)
+    for _ in range(3):
+        try:
+            v2 = U.gen_value(rng, bt.T, o, small=True)
+            e2 = R.der(bt.T, v2) if rng.random() < 0.5 else R.ber_variant(bt.T, v2, rng)[0]
+            want2 = (b'', U.canon(bt.T, v2))
+            fn2 = (lambda e=e2, f=dec_with: f(ber_decoder, e))
+            if fn2() == want2:
+                menu.append(('decode-sibling', fn2, want2))
+        except Exception:
+            continue
+    if not (HISTORY_ZONES & set(bt.feats)):
+        # (values inside the zones of the pinned history-dependent findings keep to the two calls above: there
+        # one call legitimately changes what the next returns, which arm_history reports)
+        extra = []
+        for dm, ck in ((True, 0), (False, 0), (True, rng.choice([1, 2, 3])), (False, rng.choice([2, 4, 5])),
+                       (rng.random() < 0.5, rng.choice([7, 1000]))):
+            extra.append(('encode-ber', (lambda bt=bt, dm=dm, ck=ck: ber_encoder.encode(bt.obj, defMode=dm, maxChunkSize=ck))))
+        extra.append(('encode-cer', (lambda bt=bt: cer_encoder.encode(bt.obj))))
+        extra.append(('encode-native', (lambda bt=bt: repr(native_encoder.encode(bt.obj)))))
+        try:
+            var = R.ber_variant(bt.T, bt.v, rng)[0]
+            extra.append(('decode-ber', (lambda e=var, f=dec_with: f(ber_decoder, e))))
+            extra.append(('decode-cer', (lambda e=R.cer(bt.T, bt.v), f=dec_with: f(cer_decoder, e))))
+        except Exception:
+            pass
+        for label, fn in extra:
+            try:
+                menu.append((label, fn, fn()))
+            except Exception:
+                continue        # a call that fails alone (pinned encoder findings) is not part of this arm
+    return menu
+
+
+PREEMPT_SPENT = [0.0]
+
+
+def arm_preempt(res, rng, bts, tier):
+    """Two concurrent calls under a deterministic scheduler (monitors.Preempt): thread A is stopped at its k-th
+    line event inside the library, thread B runs - to completion (depth 1), or to its j-th line event, after which A
+    finishes first (depth 2) - and both results are compared with what the calls return alone.  For calls of up to
+    `cap` line events every k is taken (the depth-1 schedules of that pair are then enumerated completely)."""
+    from .. import monitors as M
+    cap = 80 if tier == 'quick' else 600
+    # the arm has its own share of the shard's time (thread hand-offs make a schedule cost milliseconds)
+    if PREEMPT_SPENT[0] > float(os.environ.get('VERIF_C12_PREEMPT_BUDGET', 8.0 if tier == 'quick' else 240.0)):
+        return
+    t_start = time.time()
+    jobs = [(bt, m) for bt, m in ((bt, build_menu(rng, bt)) for bt in bts) if m]
+    if not jobs:
+        return
+    pre = M.Preempt(os.path.realpath(os.path.join(H.REPO, 'pyasn1')) + os.sep)
+    try:
+        pre.install()
+    except Exception as ex:
+        res.see('preempt-unavailable:' + type(ex).__name__)
+        return
+    try:
+        for _ in range(2 if tier == 'quick' else 8):
+            bt, menu = rng.choice(jobs)
+            if rng.random() < 0.75 or len(jobs) < 2:
+                bt2, menu2 = bt, menu          # both calls on the same schema / value objects
+            else:
+                bt2, menu2 = rng.choice(jobs)   # only the codec singletons are shared
+            la, fa, wa = rng.choice(menu)
+            same_kind = [m for m in menu2 if m[0].split('-')[0] == la.split('-')[0] and m[1] is not fa]
+            lb, fb, wb = rng.choice(same_kind if same_kind and rng.random() < 0.6 else menu2)
+            if rng.random() < 0.5:
+                # thread A makes the same call twice: whatever the first one left behind (a memo, a cache) is in use
+                # when the second one is stopped
+                fa, wa, la = (lambda f=fa: (f(), f())), (wa, wa), la + '-twice'
+                res.see('preempt-pairs-with-a-repeated-call')
+            na, outa = pre.count(fa)
+            nb, outb = pre.count(fb)
+            if outa != ('ok', wa) or outb != ('ok', wb) or not na or not nb:
+                res.see('preempt-pairs-skipped')
+                continue
+            res.see('preempt-pairs')
+            res.see('preempt-pairs:%s+%s' % (la.split('-')[0], lb.split('-')[0]))
+            res.maximum('line-events-in-one-call', max(na, nb))
+            if na <= cap:
+                ks = list(range(1, na + 1))
+                res.see('preempt-pairs-with-every-depth-1-schedule')
+            else:
+                ks = sorted(rng.sample(range(1, na + 1), cap))
+            feats = set(bt.feats) | {'arm:preempt'}
+            case = ('c12-preempt', bt.T, bt.v, la, lb)
+            bad = None
+            for k in ks:
+                j = None
+                if rng.random() < 0.3:
+                    j = rng.randint(1, nb)
+                ra, rb, info = pre.run(fa, fb, k, j)
+                if info == 'timeout':
+                    res.inconclusive.append('a preemption schedule did not finish within its watchdog')
+                    return
+                res.see('preempt-schedules-depth-%d' % (1 if j is None else 2))
+                if info == 'not-preempted':
+                    res.see('preempt-schedules-that-never-reached-their-point')
+                if ra != ('ok', wa) or rb != ('ok', wb):
+                    bad = (k, j, ra if ra != ('ok', wa) else rb, 'A' if ra != ('ok', wa) else 'B')
+                    break
+            if bad is None:
+                # nothing may linger: both calls once more, alone
+                if outcome2(fa) != ('ok', wa) or outcome2(fb) != ('ok', wb):
+                    bad = (None, None, 'a later sequential call differs', '-')
+            if bad is not None:
+                res.witness('preempted-call-differs:%s+%s' % (la.split('-')[0], lb.split('-')[0]), feats, case,
+                            'A=%s B=%s: A stopped at line event %r of %d, B at %r of %d: call %s gave %s' % (
+                                la, lb, bad[0], na, bad[1], nb, bad[3], repr(bad[2])[:200]))
+                return
+        res.see('preempt-ok')
+    finally:
+        pre.uninstall()
+        PREEMPT_SPENT[0] += time.time() - t_start
+
+
+def outcome2(fn):
+    try:
+        return ('ok', fn())
+    except Exception as ex:
+        return ('raised', type(ex).__name__)
+
+
 def arm_threads(res, rng, bts, inject=False):
     """8 threads hammer shared schemas / values; every result is compared with the sequential expectation."""
     jobs = []
-    HISTORY_ZONES = {'absent-optional-emptyable-record', 'default-constructed', 'default-choice'}
     for bt in bts:
-        # every entry: (label, callable, what it returns when run alone on these very objects)
-        menu = []
-        try:
-            e_der = R.der(bt.T, bt.v)
-            want_enc = der_encoder.encode(bt.obj)
-        except Exception:
-            continue
-
-        def dec_with(dec, data, bt=bt):
-            d, rest = dec.decode(data, asn1Spec=bt.schema)
-            return (bytes(rest), U.canon(bt.T, B.absval(d, bt.T)))
-        menu.append(('encode', (lambda bt=bt: der_encoder.encode(bt.obj)), want_enc))
-        menu.append(('decode', (lambda e=e_der, f=dec_with: f(der_decoder, e)), (b'', bt.cv)))
-        # other values of the same type decoded against the SAME schema object (a module-level schema shared by all
-        # threads of a program): different alternatives / optional members / element counts in flight at once
-        o = C.opts_for('quick', rng)
-        for _ in range(3):
-            try:
-                v2 = U.gen_value(rng, bt.T, o, small=True)
-                e2 = R.der(bt.T, v2) if rng.random() < 0.5 else R.ber_variant(bt.T, v2, rng)[0]
-                want2 = (b'', U.canon(bt.T, v2))
-                fn2 = (lambda e=e2, f=dec_with: f(ber_decoder, e))
-                if fn2() == want2:
-                    menu.append(('decode-sibling', fn2, want2))
-            except Exception:
-                continue
-        if not (HISTORY_ZONES & set(bt.feats)):
-            # (values inside the zones of the pinned history-dependent findings keep to the two calls above: there
-            # one call legitimately changes what the next returns, which arm_history reports)
-            extra = []
-            for dm, ck in ((True, 0), (False, 0), (True, rng.choice([1, 2, 3])), (False, rng.choice([2, 4, 5])),
-                           (rng.random() < 0.5, rng.choice([7, 1000]))):
-                extra.append(('encode-ber', (lambda bt=bt, dm=dm, ck=ck: ber_encoder.encode(bt.obj, defMode=dm, maxChunkSize=ck))))
-            extra.append(('encode-cer', (lambda bt=bt: cer_encoder.encode(bt.obj))))
-            extra.append(('encode-native', (lambda bt=bt: repr(native_encoder.encode(bt.obj)))))
-            try:
-                var = R.ber_variant(bt.T, bt.v, rng)[0]
-                extra.append(('decode-ber', (lambda e=var, f=dec_with: f(ber_decoder, e))))
-                extra.append(('decode-cer', (lambda e=R.cer(bt.T, bt.v), f=dec_with: f(cer_decoder, e))))
-            except Exception:
-                pass
-            for label, fn in extra:
-                try:
-                    menu.append((label, fn, fn()))
-                except Exception:
-                    continue        # a call that fails alone (pinned encoder findings) is not part of this arm
-        jobs.append((bt, menu))
+        menu = build_menu(rng, bt)
+        if menu:
+            jobs.append((bt, menu))
     if not jobs:
         return
     problems = []
@@ -894,6 +993,7 @@ def run_shard(shard, tier, seed):
     res = H.Result(ID)
     rng = C.rng_for(seed, ID, shard['shard'])
     budget = C.Budget(tier, quick=40.0)
+    PREEMPT_SPENT[0] = 0.0
     contracts = Contracts()
     contracts.install()
     res.see_in('contract-implementation', contracts.kind)
@@ -943,6 +1043,8 @@ def run_shard(shard, tier, seed):
                     arm_interleave(res, rng, group)
                     if i % 20 < 5:
                         arm_threads(res, rng, pool)
+                    if i % 10 == 9:
+                        arm_preempt(res, rng, pool, tier)
                     pool = []
                 if len(res.samples) < 3:
                     res.sample(C.sample_of(T, v, arms=['history', 'aliasing', 'logging', 'interleave', 'threads']))
